@@ -36,6 +36,8 @@ def items():
     out = []
     for p in sorted(glob.glob(os.path.join(HERE, "mutants", "*.patch"))):
         m = re.match(r"c(\d+)_", os.path.basename(p))
+        if "_unfix_" in os.path.basename(p):
+            continue  # listed through known_findings.json (revert:<commit>)
         out.append(dict(name="mutants/" + os.path.basename(p), kind="patch", path=p, props=[f"C{int(m.group(1)):02d}"]))
     for d in sorted(glob.glob(os.path.join(HERE, "seeded", "*"))):
         mp = os.path.join(d, "meta.json")
@@ -50,6 +52,11 @@ def items():
     kf = json.load(open(os.path.join(HERE, "known_findings.json")))["findings"]
     for f in kf:
         if f.get("status") == "fixed":
+            if f.get("unfix_patch"):
+                # later fixes touched the same lines, `git revert` no longer applies: hand-ported reverse patch
+                out.append(dict(name=f"revert:{f['commit']}", kind="patch", path=os.path.join(HERE, f["unfix_patch"]),
+                                props=[f["property"]]))
+                continue
             out.append(dict(name=f"revert:{f['commit']}", kind="revert", commit=f["commit"], props=[f["property"]],
                             also=f.get("revert_with", [])))
     return out
